@@ -1,1 +1,152 @@
 //! Hooks owned by property C06 (feature `verif-hooks`).
+//!
+//!  * [`lex_all`]: the token stream of a source text (kind names and byte
+//!    spans), driving the lexer the way the parser's f-string routine does.
+//!  * [`report_locations`]: every location an error report cites, as
+//!    `(file index, start byte, end byte)`.
+
+use crate::{
+    RotoReport,
+    parser::{
+        lexer::Lexer,
+        token::{FStringToken, Token},
+    },
+    pipeline::RotoError,
+};
+
+fn kind(tok: &Token<'_>) -> String {
+    match tok {
+        Token::Ident(_) => "Ident".into(),
+        Token::Keyword(k) => format!("Keyword({k:?})"),
+        Token::String(_) => "String".into(),
+        Token::Char(_) => "Char".into(),
+        Token::Integer(n, _) => format!("Integer:{}", n.len()),
+        Token::Float(n, _) => format!("Float:{}", n.len()),
+        Token::Hex(_) => "Hex".into(),
+        Token::Asn(_) => "Asn".into(),
+        Token::IpV4(_) => "IpV4".into(),
+        Token::IpV6(_) => "IpV6".into(),
+        Token::Bool(b) => format!("Bool({b})"),
+        // punctuation, delimiters and `FStringStart` are unit variants
+        other => format!("{other:?}"),
+    }
+}
+
+/// One f-string part; `false` when the stream ends here.
+fn f_part(
+    lexer: &mut Lexer<'_>,
+    stack: &mut Vec<usize>,
+    out: &mut Vec<(String, usize, usize)>,
+) -> bool {
+    match lexer.f_string_part() {
+        None => {
+            out.push(("FStringNone".into(), 0, 0));
+            false
+        }
+        Some((FStringToken::StringEnd(_), span)) => {
+            out.push(("FStringEnd".into(), span.start, span.end));
+            true
+        }
+        Some((FStringToken::StringIntermediate(_), span)) => {
+            out.push(("FStringMid".into(), span.start, span.end));
+            stack.push(0);
+            true
+        }
+    }
+}
+
+/// Lex a whole source text. After `FStringStart` an f-string part is
+/// requested; after a `StringIntermediate` ordinary tokens are lexed with a
+/// brace counter, and when the brace that opened the interpolation closes the
+/// next part is requested (this is what `Parser::f_string` does for a
+/// well-formed interpolation). The stream ends at the end of input, after an
+/// unrecognised character (`Invalid`) or after `f_string_part` gave `None`.
+pub fn lex_all(src: &str) -> Vec<(String, usize, usize)> {
+    let mut lexer = Lexer::new(src);
+    lexer.skip_shebang();
+    let mut out = Vec::new();
+    let mut stack: Vec<usize> = Vec::new();
+    loop {
+        match lexer.next() {
+            None => break,
+            Some((Err(()), span)) => {
+                out.push(("Invalid".into(), span.start, span.end));
+                break;
+            }
+            Some((Ok(tok), span)) => {
+                out.push((kind(&tok), span.start, span.end));
+                match tok {
+                    Token::FStringStart => {
+                        if !f_part(&mut lexer, &mut stack, &mut out) {
+                            break;
+                        }
+                    }
+                    Token::CurlyLeft => {
+                        if let Some(d) = stack.last_mut() {
+                            *d += 1;
+                        }
+                    }
+                    Token::CurlyRight => {
+                        if let Some(d) = stack.last_mut() {
+                            if *d <= 1 {
+                                stack.pop();
+                                if !f_part(&mut lexer, &mut stack, &mut out)
+                                {
+                                    break;
+                                }
+                            } else {
+                                *d -= 1;
+                            }
+                        }
+                    }
+                    _ => {}
+                }
+            }
+        }
+    }
+    out
+}
+
+/// Every location cited by a report: `(what, file index, start, end)` in
+/// bytes of that file, plus the number of files of the report.
+pub fn report_locations(
+    report: &RotoReport,
+) -> Vec<(&'static str, usize, usize, usize)> {
+    let mut out = Vec::new();
+    for error in &report.errors {
+        match error {
+            RotoError::Parse(e) => {
+                let s = e.location;
+                out.push(("parse", s.file, s.start, s.end));
+                for h in &e.hints {
+                    let s = h.location;
+                    out.push(("parse-hint", s.file, s.start, s.end));
+                }
+            }
+            RotoError::Type(e) => {
+                let s = report.spans.get(e.location);
+                out.push(("type", s.file, s.start, s.end));
+                for l in &e.labels {
+                    let s = report.spans.get(l.id);
+                    out.push(("type-label", s.file, s.start, s.end));
+                }
+            }
+            _ => {}
+        }
+    }
+    out
+}
+
+/// The stage that produced the first error of a report: `read`, `lexer`
+/// (parse error "invalid token"), `parser`, `typechecker`, `other`.
+pub fn report_stage(report: &RotoReport) -> &'static str {
+    match report.errors.first() {
+        Some(RotoError::Read(..)) => "read",
+        Some(RotoError::Parse(e)) if e.kind.label() == "invalid token" => {
+            "lexer"
+        }
+        Some(RotoError::Parse(_)) => "parser",
+        Some(RotoError::Type(_)) => "typechecker",
+        _ => "other",
+    }
+}
